@@ -12,6 +12,7 @@ TABLE = {
     "C02": ("c02", ()),
     "C04": ("c04", ()),
     "C05": ("c05", ()),
+    "C07": ("c07", ()),
     "C09": ("c09", ()),
     "C10": ("c10", ()),
     "C11": ("c11", ()),
